@@ -5,6 +5,8 @@ The tree is the meaning; Render chooses one of the spellings the language guide 
 """
 import random
 
+CONT = "\x01"     # marks continuation lines of a multi-line statement while a program is being rendered
+
 _next_id = [0]
 
 
@@ -621,6 +623,10 @@ class Renderer:
             return [pad + "(" + self.expr(n) + ")"]
         if k in ("neg",) or (k == "int" and n["v"] < 0) or (k == "flt" and n["n"] < 0):
             return [pad + "(" + self.expr(n) + ")"]
+        if k == "asg" and self.is_inline(n["e"]) and n["e"]["k"] in ("app", "core", "mcall", "bin", "list"):
+            return (pad + n["n"] + " = " + self.expr_ml(n["e"], depth)).split("\n")
+        if k in ("app", "core", "mcall") and self.is_inline(n):
+            return (pad + self.expr_ml(n, depth)).split("\n")
         return [pad + self.expr(n)]
 
     def call_free_ok(self, n):
@@ -646,17 +652,61 @@ class Renderer:
             return "%s -> %s%s" % (args[0], n["f"]["n"], (" " + rest) if rest else "")
         return "%s %s" % (n["f"]["n"], ", ".join(args))
 
+    def expr_ml(self, n, depth):
+        """Render the top node of a simple statement, possibly over several lines (guide: arguments, lists and
+        binary expressions may be broken across indented lines). Continuation lines carry the marker CONT."""
+        if self.L.rng is None or self.L.pick(3, 0.55) == 0:
+            return self.expr(n)
+        k = n["k"]
+        pad1 = self.ind * (depth + 1)
+        pad0 = self.ind * depth
+        if k in ("app", "core", "mcall") and n["args"] and all(a["k"] != "fn" or self.is_inline(a) for a in n["args"]):
+            if k == "app":
+                head = self.recv(n["f"])
+            elif k == "core":
+                head = n["f"]
+            else:
+                head = "%s.%s" % (self.recv(n["c"]), n["m"])
+            args = [self.arg(a) for a in n["args"]]
+            style = self.L.pick(3, 0.34)
+            if style == 0:
+                body = "".join("\n" + CONT + pad1 + a + ("," if i < len(args) - 1 else "") for i, a in enumerate(args))
+                return head + "(" + body + "\n" + CONT + pad0 + ")"
+            if style == 1 and len(args) >= 2:
+                return head + "(" + args[0] + "," + "".join("\n" + CONT + pad1 + a + ("," if i < len(args) - 2 else "")
+                                                             for i, a in enumerate(args[1:])) + ")"
+            return head + "(" + "".join("\n" + CONT + pad1 + a + "," for a in args) + "\n" + CONT + pad0 + ")"
+        if k == "bin":
+            p = PREC[n["op"]]
+            a, b = self.operand(n["a"], p, False), self.operand(n["b"], p, True)
+            if self.L.pick(2, 0.5) == 0:
+                return "%s %s\n%s%s%s" % (a, n["op"], CONT, pad1, b)
+            return "%s\n%s%s%s %s" % (a, CONT, pad1, n["op"], b)
+        if k == "list" and n["xs"]:
+            xs = [self.paren(x) for x in n["xs"]]
+            return "[" + "".join("\n" + CONT + pad1 + x + "," for x in xs) + "\n" + CONT + pad0 + "]"
+        return self.expr(n)
+
     def arm(self, head, body, depth):
         if self.is_inline(body) and self.single(body)["k"] not in ("if", "masg") and self.L.pick(2, 0.5) == 0:
             return [head + " " + self.paren(self.single(body))]
         return [head] + self.block(body, depth + 1)
 
     def program(self, n):
-        return "\n".join(self.block(n, 0)) + "\n"
+        lines = self.block(n, 0)
+        self.cont_lines = {i for i, l in enumerate(lines) if l.startswith(CONT)}
+        return "\n".join(l.replace(CONT, "") for l in lines) + "\n"
 
 
 def render(ast, layout=None):
     return Renderer(layout).program(ast)
+
+
+def render_with_lines(ast, layout=None):
+    """(source, set of 0-based indices of continuation lines)"""
+    r = Renderer(layout)
+    src = r.program(ast)
+    return src, r.cont_lines
 
 
 def wrap_in_function(ast, extra_locals=0, name="kv_main"):
